@@ -31,6 +31,8 @@ func main() {
 	watchdog := flag.Int("watchdog", 120, "seconds per scenario before the process aborts (exit 3)")
 	acct := flag.String("acct", "", "also record the node accounting of every simulation step of every cycle here (ndjson for spec/NodeAcctCycleTrace.tla; default off)")
 	acctMax := flag.Int("acct-max", 300, "-acct: observations kept per cycle and node")
+	stmtobs := flag.String("stmtobs", "", "also record every statement scope the real actions abandon (Rollback / Discard) with the session view before and after, here (ndjson for spec/StmtCycleTrace.tla; default off)")
+	stmtMax := flag.Int("stmtobs-max", 400, "-stmtobs: scopes kept per scenario")
 	flag.Parse()
 	_ = log.InitLoggers(*verbosity)
 	w, err := tracefmt.Create(*out)
@@ -46,6 +48,15 @@ func main() {
 		}
 		opt.Acct = aw.Emit
 		world.AcctMaxObs = *acctMax
+	}
+	var sw *tracefmt.Writer
+	if *stmtobs != "" {
+		sw, err = tracefmt.Create(*stmtobs)
+		if err != nil {
+			panic(err)
+		}
+		opt.Stmt = sw.Emit
+		world.StmtMaxScopes = *stmtMax
 	}
 	var scs []*world.Scenario
 	if *random > 0 {
@@ -102,6 +113,13 @@ func main() {
 	}
 	if err := w.Close(); err != nil {
 		panic(err)
+	}
+	if sw != nil {
+		if err := sw.Close(); err != nil {
+			panic(err)
+		}
+		st, _ := json.Marshal(world.StmtStats)
+		defer fmt.Printf("{\"scenarios\": %d, \"events\": %d, \"stmt_lines\": %d, \"stmt\": %s}\n", n, w.Count(), sw.Count(), st)
 	}
 	if aw != nil {
 		if err := aw.Close(); err != nil {
